@@ -67,6 +67,7 @@ func cmdC13API(args []string) int {
 	tier := fs.String("tier", "quick", "tier")
 	statsPath := fs.String("stats", "stats.json", "stats")
 	corpus := fs.String("corpus", "/verif/corpus/patterns_harvested.txt", "corpus")
+	dump := fs.Int("dump", -1, "debug: print the call history of pattern index i")
 	fs.Parse(args)
 	st := newStats("C13", *seed)
 	r := newRng(*seed)
@@ -132,6 +133,12 @@ func cmdC13API(args []string) int {
 		longest := r.chance(10)
 		if longest {
 			aged.Longest()
+		}
+		if *dump == i {
+			fmt.Printf("pattern %q cfg %s longest %v\n", pat, cfgs[ci].name, longest)
+			for _, c := range calls {
+				fmt.Printf("%s %x\n", c.api, c.hay)
+			}
 		}
 		var hist []string
 		for k, c := range calls {
